@@ -149,3 +149,102 @@ Proof.
          end.
   inversion H as [Hf]. cbn [gf_lex]. now apply lex_roundtrip.
 Qed.
+
+(** ** user.csv: trained parameters exactly for the rows given as 0,0,0, the others copied unchanged *)
+Lemma parse_unsigned_le s max v : parse_unsigned s max = Some v -> v <= max.
+Proof.
+  unfold parse_unsigned. destruct (dec_value _) as [x|]; [|discriminate]. destruct (N.leb_spec x max); [|discriminate].
+  intros H0; inversion H0; subst; assumption.
+Qed.
+Lemma parse_i16_range s c : parse_i16 s = Some c -> (-32768 <= c <= 32767)%Z.
+Proof.
+  unfold parse_i16. destruct s as [|b t].
+  - intros H0. destruct (parse_unsigned [] 32767) as [v|] eqn:E; [|discriminate]. apply parse_unsigned_le in E. inversion H0. lia.
+  - destruct (N.eq_dec b 45) as [->|Hb].
+    + destruct (dec_value t) as [v|]; [|discriminate]. destruct (N.leb_spec v 32768); [|discriminate]. intros H0; inversion H0. lia.
+    + replace (match b :: t with 45 :: t0 => _ | _ => match parse_unsigned (b :: t) 32767 with Some v => Some (Z.of_N v) | None => None end end)
+        with (match parse_unsigned (b :: t) 32767 with Some v => Some (Z.of_N v) | None => None end).
+      * destruct (parse_unsigned (b :: t) 32767) as [v|] eqn:E; [|discriminate]. apply parse_unsigned_le in E. intros H0; inversion H0. lia.
+      * destruct b as [|p]; [reflexivity|]. do 6 (destruct p; try reflexivity). congruence.
+Qed.
+
+Definition is_zero3 (e : lexent) : bool := (le_lid e =? 0) && (le_rid e =? 0) && (le_cost e =? 0)%Z.
+
+(** the parameters a user row is written with *)
+Definition user_params (sc : f64) (sets : list (Z * N * N)) (e : lexent) (lb : N) : option (N * N * Z) :=
+  match nth_error sets (N.to_nat (lb - 1)) with
+  | None => None
+  | Some (w, l, r) => if is_zero3 e then Some (l, r, f64_cost sc (f64_of_bits w)) else Some (le_lid e, le_rid e, le_cost e)
+  end.
+
+Definition userrow (row : lrow) (p : N * N * Z) : lrow :=
+  let '(l, r, c) := p in
+  {| l_head := {| s_surface := s_surface (l_head row); s_quote := false;
+                  s_ltxt := show_N l; s_rtxt := show_N r; s_ctxt := show_Z c;
+                  s_lid := l; s_rid := r; s_cost := c; s_cells := [] |};
+     l_cells := l_cells row; l_term := [10] |}.
+
+Lemma gen_user_render sc sets : forall rows labels txt,
+  gen_user sc sets (map lentry rows) labels = Ok txt ->
+  exists ps, Forall2 (fun rl p => user_params sc sets (lentry (fst rl)) (snd rl) = Some p) (combine rows labels) ps /\
+             length ps = length rows /\
+             txt = concat (map render_lrow (map (fun rp => userrow (fst rp) (snd rp)) (combine rows ps))).
+Proof.
+  induction rows as [|row rows IH]; intros labels txt H.
+  - cbn in H. inversion H. exists []. repeat split. constructor.
+  - cbn [map gen_user] in H. destruct labels as [|lb labels]; [discriminate|].
+    unfold rbind in H. destruct (gen_user sc sets (map lentry rows) labels) as [rest| |] eqn:E; try discriminate.
+    destruct (IH labels rest E) as (ps & F & L & ->).
+    destruct (nth_error sets (N.to_nat (lb - 1))) as [[[w l] r]|] eqn:En; [|discriminate].
+    fold (is_zero3 (lentry row)) in H.
+    assert (P : user_params sc sets (lentry row) lb = Some (if is_zero3 (lentry row) then (l, r, f64_cost sc (f64_of_bits w)) else (le_lid (lentry row), le_rid (lentry row), le_cost (lentry row)))).
+    { unfold user_params. rewrite En. now destruct (is_zero3 (lentry row)). }
+    eexists (_ :: ps). split; [cbn [combine]; constructor; [exact P|exact F]|]. split; [cbn; now rewrite L|].
+    cbn [combine map concat fst snd]. destruct (is_zero3 (lentry row)); inversion H; subst txt; f_equal;
+      unfold row5, render_lrow, render_head, csv_cell, lentry, userrow; cbn [l_head l_cells l_term s_surface s_quote s_ltxt s_rtxt s_ctxt le_surface le_feature le_lid le_rid le_cost];
+      rewrite <- !app_assoc; cbn [app]; repeat (rewrite <- ?app_assoc; cbn [app]; f_equal).
+Qed.
+
+Definition user_entry (rp : lrow * (N * N * Z)) : lexent :=
+  let '(row, (l, r, c)) := rp in
+  {| le_surface := s_surface (l_head row); le_lid := l; le_rid := r; le_cost := c; le_feature := feature_of (l_cells row) |}.
+
+Theorem user_roundtrip sc sets rows labels txt :
+  Forall lrow_ok rows -> Forall (fun r => s_surface (l_head r) <> []) rows -> Forall ids_ok sets ->
+  gen_user sc sets (map lentry rows) labels = Ok txt ->
+  exists ps, Forall2 (fun rl p => user_params sc sets (lentry (fst rl)) (snd rl) = Some p) (combine rows labels) ps /\
+             length ps = length rows /\
+             parse_lex_csv txt = Ok (map user_entry (combine rows ps)).
+Proof.
+  intros Fo Fn Fi H. destruct (gen_user_render sc sets rows labels txt H) as (ps & F & L & ->).
+  exists ps. split; [exact F|]. split; [exact L|].
+  pose proof (parse_render_layout [] (map (fun rp => userrow (fst rp) (snd rp)) (combine rows ps)) None) as P. cbn [app] in P. rewrite app_nil_r in P.
+  rewrite P; clear P.
+  - f_equal. rewrite app_nil_r.
+    assert (K : forall l, Forall (fun rp : lrow * (N * N * Z) => s_surface (l_head (fst rp)) <> []) l ->
+              map lentry (filter lkeep (map (fun rp => userrow (fst rp) (snd rp)) l)) = map user_entry l).
+    { induction l as [|[row [[l0 r] c]] l IHl]; intros F'; [reflexivity|]. inversion F' as [|? ? Hne F'']; subst. cbn [fst] in Hne.
+      cbn [map filter fst snd]. unfold lkeep at 1. cbn [userrow l_head s_surface].
+      destruct (s_surface (l_head row)) eqn:Es; [congruence|]. cbn [map]. rewrite IHl by exact F''.
+      f_equal. unfold lentry, user_entry. cbn. now rewrite Es. }
+    apply K. clear -Fn. revert ps. induction Fn as [|row rows Hr _ IH]; intros ps; [constructor|].
+    destruct ps as [|p ps]; [constructor|]. cbn [combine]. constructor; [exact Hr|apply IH].
+  - constructor.
+  - (* every written row is well formed *)
+    clear -Fo Fi F. revert labels ps F. induction Fo as [|row rows Hr _ IH]; intros labels ps F; [constructor|].
+    destruct labels as [|lb labels]; [cbn in F; inversion F; constructor|].
+    cbn [combine] in F. inversion F as [|? p ? ps' Hp F']; subst. cbn [combine map fst snd]. constructor; [|now apply (IH labels)].
+    cbn [fst snd] in Hp. unfold user_params in Hp.
+    destruct (nth_error sets (N.to_nat (lb - 1))) as [[[w l] r]|] eqn:En; [|discriminate].
+    assert (Hin : ids_ok (w, l, r)) by (eapply Forall_forall; [exact Fi|eapply nth_error_In; exact En]).
+    destruct Hin as [Hl Hr']. cbn in Hl, Hr'.
+    destruct Hr as (_ & _ & _ & Pl & Pr & Pc & Hc1 & Hc2).
+    apply parse_unsigned_le in Pl. apply parse_unsigned_le in Pr. apply parse_i16_range in Pc.
+    destruct (is_zero3 (lentry row)); inversion Hp; subst p; (split; [|cbn; split; [discriminate|constructor; [now left|constructor]]]);
+      unfold lrow_ok, userrow; cbn [l_head l_cells s_ltxt s_rtxt s_ctxt s_lid s_rid s_cost];
+      refine (conj _ (conj _ (conj _ (conj _ (conj _ (conj _ (conj Hc1 Hc2)))))));
+      try (apply digits_plain, show_N_digits); try apply show_Z_plain; try (now apply parse_unsigned_show).
+    + apply parse_i16_show. pose proof (f64_cost_i16 sc (f64_of_bits w)). lia.
+    + now apply parse_i16_show.
+  - exact I.
+Qed.
